@@ -59,11 +59,26 @@ def ri(ctx, b, n):
     return reachable and (running is True) == (all_open and True) if n > 0 else reachable
 
 
-def wired(ip, t, cb):
+def wired(ip, t, cb, ctx=None):
+    """the transport's protocol hands a received datagram to the broadcast parser with THIS bridge's callback: observed by
+    behaviour (a well-formed concrete broadcast pushed through protocol.datagram_received reaches cb exactly once), so that
+    any equivalent wiring (partial, lambda, bound method) is accepted"""
+    from pyvc.interp import Ctx, PyExc
+    from .common import real_enum
     proto = t.state.get("protocol")
-    h = proto.attrs.get("_on_datagram") if isinstance(proto, Obj) else None
-    return isinstance(h, Partial) and isinstance(h.fn, FuncInfo) and h.fn.qualname == B + "_parse_device_from_datagram" and \
-        len(h.args) == 1 and h.args[0] is cb and not h.kwargs
+    if not isinstance(proto, Obj):
+        return False
+    dt = list(real_enum("aioswitcher.device", "DeviceType"))[0]
+    m = bytearray(165)
+    m[0:2] = b"\xfe\xf0"
+    m[74:76] = bytes.fromhex(dt.hex_rep)
+    probe = Ctx()
+    try:
+        ip.call_function(proto.cls.find_method("datagram_received"), [proto, bytes(m), ("192.0.2.1", 20002)], {}, probe)
+    except PyExc:
+        return False
+    called = [e[1] for e in probe.ghost.events if e[0] == "callback_object"]
+    return len(probe.ghost.callback_calls) == 1 and called == [cb]
 
 
 def units(tier):
